@@ -544,6 +544,10 @@ where
                 // window, so there is nothing to fetch below it. Requesting it
                 // anyway would repeat forever: the batch can not be inserted
                 // because it has no stored neighbour.
+                //
+                // Pruner runs concurrently, it may have removed the header after
+                // `pruned_ranges` was read, so ask the store again.
+                let pruned_ranges = self.store.get_pruned_ranges().await?;
                 if pruned_ranges.contains(next_batch.end() + 1) {
                     return Ok(());
                 }
